@@ -26,13 +26,16 @@ done
 mkdir -p /verif/seeded/$id-$n
 cp $O/patch$i.diff /verif/seeded/$id-$n/patch.diff; cp $O/demo${i}_test.go /verif/seeded/$id-$n/demo_test.go; cp $O/note$i.txt /verif/seeded/$id-$n/note.txt 2>/dev/null
 python3 - "$id" "$n" "$clean_demo" "$suite" "$patched_demo" "$verdicts" "$sub" <<'PY'
-import json,sys
+import json,sys,os
 id,i,cd,su,pd,ver,sub=sys.argv[1:8]
 note=open('/verif/seeded/%s-%s/note.txt'%(id,i)).read() if True else ''
-json.dump({"property":id,"seed":int(i),"origin":"independent sub-agent given only the property text and a scratch worktree",
+ann=json.load(open('/verif/seeded/ANNOTATIONS.json')).get('%s-%s'%(id,i),{}) if os.path.exists('/verif/seeded/ANNOTATIONS.json') else {}
+meta={"property":id,"seed":int(i),"origin":"independent sub-agent given only the property text and a scratch worktree",
  "needs_to_manifest":note.strip(),
  "confirmed_by_me":{"demo_passes_on_unmodified_tree":cd=="0","existing_suite_passes_with_patch":su=="0","demo_fails_with_patch":pd!="0",
    "commands":["git apply patch.diff","go test -vet=off -count=1 ./...","go test -vet=off -count=1 -run '^TestDemo<k>$' . (demo copied into %s)"%(sub)]},
- "my_checks_quick":ver.strip()},open('/verif/seeded/%s-%s/meta.json'%(id,i),'w'),indent=1)
+ "my_checks_quick":ver.strip()}
+meta.update(ann)
+json.dump(meta,open('/verif/seeded/%s-%s/meta.json'%(id,i),'w'),indent=1)
 PY
 git -C $W checkout -q -- . ; git -C $W clean -qfd -e _out -e _out2; rm -rf /tmp/seed/out_$id
